@@ -106,7 +106,7 @@ struct gstate {
 	struct sthr thr[MAXT];
 	int nthr;
 	/* clock and steps */
-	uint64_t steps, switches, now;
+	uint64_t steps, switches, now, steps_at_last_wake;
 	uint64_t step_cap;
 	uint64_t time_cap;
 	uint64_t nosched_after;
